@@ -239,7 +239,16 @@ def gen(seed, tier):
         for (n, prog) in cfgs:
             for pre in itertools.product(range(3), repeat=8):
                 cases.append(mk("x%d" % j, n, prog, pre)); j += 1
-    return cases
+    # engine poolf: the same programs under a finer interleaving (every unlock of the pool mutex is a scheduling point as
+    # well); no model prediction there, the property oracle alone judges the implementation's trace
+    fine = []
+    for c in cases:
+        if c.name[0] in "dce" or (c.name[0] == "g" and int(c.name[1:]) % 4 == 0):
+            fine.append(Case("poolf", "f" + c.name, c.ops))
+    for pre in itertools.product(range(3), repeat=6):
+        fine.append(mk("fd%d" % b, 2, [('s', 0, 3, [6]), ('s', 0, 0, []), ('s', 0, 2, [])], list(pre) + [0, 1, 2] * 4)); b += 1
+        fine[-1].engine = "poolf"
+    return cases + fine
 
 
 def close_case(c):
@@ -289,6 +298,8 @@ def canon(obs):
 
 
 def obs_equal(case, m, i):
+    if case.engine == "poolf":
+        return True    # finer interleaving than the model's steps: only the property oracle judges the trace
     return canon(m) == canon(i)
 
 
